@@ -5,6 +5,7 @@ use serde_json::Value;
 
 pub mod c01;
 pub mod c02;
+pub mod c17;
 
 pub struct PropEntry {
   pub id: &'static str,
@@ -19,6 +20,7 @@ pub fn registry() -> Vec<PropEntry> {
   vec![
     PropEntry { id: "C01", meta: c01::meta, run: c01::run, replay: c01::replay, profiles: &["release", "chk"] },
     PropEntry { id: "C02", meta: c02::meta, run: c02::run, replay: c02::replay, profiles: &["release", "chk"] },
+    PropEntry { id: "C17", meta: c17::meta, run: c17::run, replay: c17::replay, profiles: &["release", "chk"] },
   ]
 }
 
